@@ -22,10 +22,14 @@ exhaustion are all just particular environments).
   well-founded recursion on link budget × remaining components, or explicit fuel that C08 proves
   irrelevant); there is no unbounded loop in the model for the tie to follow.
 
-Not a theorem: absence of panics in *error-message construction* when the diagnostic reads of
-`/proc/thread-self` themselves fail repeatedly (the model has `.panic` results for that, the
-fault-injection suite looks for it in the implementation), and the first-use initialisation of
-process-global state, which the forked `fault-init` suite exercises.
+* **Error-message construction always completes** (since the repair of finding F26): the
+  diagnostic reads of `/proc/thread-self` made while an error value is built (`Sys.freeze`) build
+  no error value themselves — a failing probe moves on to the next spelling, and a missing
+  `thread-self` falls back to the first spelling — so `failWith_inv` (C06): every run of
+  `Sys.failWith fds e` ends with `OsError e`, whatever those reads are answered.
+
+Not a theorem: the first-use initialisation of process-global state, which the forked
+`fault-init` suite exercises.
 -/
 
 open K Runs Procfs
@@ -107,28 +111,20 @@ theorem fetchMntId_unknown_only {dir : Fd} {path : Bytes} {h h' : Hist}
         · simp [hm'] at he
         · exact Or.inr (Or.inr ⟨m, id, hresp, by simpa using hm'⟩)
       · cases he
-    · rcases hxe with hxe | ⟨s, hxe⟩
-      · subst hxe
-        rcases hx with ⟨a, ha, _⟩ | ⟨e', he, hfat⟩
-        · cases ha
-        · cases he
-          rcases hfat with ⟨hf, _⟩ | ⟨_, hxx⟩
-          · simp [Err.isFatal] at hf
-          · cases hxx
-            simp only [] at h2
-            by_cases he2 : e = ENOSYS ∨ e = EINVAL
-            · rcases he2 with h3 | h3
-              · exact Or.inl (by rw [hresp, h3])
-              · exact Or.inr (Or.inl (by rw [hresp, h3]))
-            · simp only [he2, ↓reduceIte] at h2
-              obtain ⟨_, he⟩ := ret_inv h2; cases he
-      · subst hxe
-        rcases hx with ⟨a, ha, _⟩ | ⟨e', he, hfat⟩
-        · cases ha
-        · cases he
-          rcases hfat with ⟨_, hxx⟩ | ⟨hf, _⟩
-          · cases hxx
-          · simp [Err.isFatal] at hf
+    · subst hxe
+      rcases hx with ⟨a, ha, _⟩ | ⟨e', he, hfat⟩
+      · cases ha
+      · cases he
+        rcases hfat with ⟨hf, _⟩ | ⟨_, hxx⟩
+        · simp [Err.isFatal] at hf
+        · cases hxx
+          simp only [] at h2
+          by_cases he2 : e = ENOSYS ∨ e = EINVAL
+          · rcases he2 with h3 | h3
+            · exact Or.inl (by rw [hresp, h3])
+            · exact Or.inr (Or.inl (by rw [hresp, h3]))
+          · simp only [he2, ↓reduceIte] at h2
+            obtain ⟨_, he⟩ := ret_inv h2; cases he
     · subst hxb
       rcases hx with ⟨a, ha, _⟩ | ⟨e', he, hfat⟩
       · cases ha
@@ -158,7 +154,7 @@ theorem C10_eagain_bounded (env : Env) (root : Fd) (path : Bytes) (rflags : Nat)
   ⟨(kernel_confined env root path rflags nofollow hr).1, (kernel_confined env root path rflags nofollow hr).2.2⟩
 
 /-- 16 consecutive `EAGAIN`s are a safety violation: unfolding the loop 16 times against answers that
-are all `EAGAIN` (with working diagnostics) ends in `SafetyViolation` — here the base of that
+are all `EAGAIN` ends in `SafetyViolation` — here the base of that
 unfolding -/
 theorem C10_eagain_exhausted (root : Fd) (path : Bytes) (fl rs : Nat) :
     Openat2.resolveLoop root path fl rs 0 = throw .safetyViolation := rfl
